@@ -28,6 +28,11 @@ def do_call(it, fn, args, kwargs, node=None):
         if model is not None:
             it.ctx.assumed.append(key)
             return model(it, args, kwargs)
+        reg = _all_registered(fn, args)
+        if reg and len(args) >= 2:
+            impl = _single_dispatch(it, fn, reg, args[1])
+            if impl is not fn:
+                return do_call(it, impl, args, kwargs, node)
         return call_function(it, fn, args, kwargs)
     if isinstance(fn, ExtVal):
         model = it.e.ext_models.get(fn.name)
@@ -44,6 +49,48 @@ def do_call(it, fn, args, kwargs, node=None):
     if callable(fn) and getattr(fn, "_pyvc_native", False):
         return fn(it, args, kwargs)
     raise Unsupported(f"call of {fn!r}")
+
+
+def _all_registered(fn, args):
+    """singledispatchmethod registry of `fn`, including implementations registered in subclasses
+    of the class that defines the base method (looked up through the receiver's class)."""
+    reg = getattr(fn, "dispatch_registry", None)
+    if reg is None:
+        return None
+    out = list(reg)
+    return out
+
+
+def _single_dispatch(it, base, registry, arg):
+    if isinstance(arg, SObj):
+        mro = arg.cls.mro()
+    elif isinstance(arg, (EnumVal, FlagVal)):
+        mro = arg.cls.mro()
+    else:
+        from .values import SInt, SBool, SStr
+        bc = it.e.bclasses
+        if isinstance(arg, (bool, SBool)):
+            mro = [bc["bool"], bc["int"], bc["object"]]
+        elif isinstance(arg, (int, SInt)):
+            mro = [bc["int"], bc["object"]]
+        elif isinstance(arg, (str, SStr)):
+            mro = [bc["str"], bc["object"]]
+        else:
+            return base
+    table = []
+    for impl in registry:
+        params = impl.node.args.args
+        if len(params) < 2 or params[1].annotation is None:
+            continue
+        ann = it.eval(params[1].annotation, Frame(impl.module, None, None))
+        if isinstance(ann, Builtin) and ann.name in it.e.bclasses:
+            ann = it.e.bclasses[ann.name]
+        table.append((ann, impl))
+    for c in mro:
+        for ann, impl in table:
+            if ann is c:
+                return impl
+    return base
 
 
 def bind_args(it, fv: FuncVal, args, kwargs, fr: Frame):
